@@ -111,6 +111,7 @@ void chk_run_case(uint64_t seed, long c, bool is_sweep)
         w_buffers(shared ? cap * 2 : cap, shared, 32);
         w_init((int)rn(2));
         POLICY = policy; VPOLICY = vpolicy; ON_UNIT = on_unit;
+        if (chance(40)) QUERY_PM = 40 + rn(200);      /* lookups and queries of the public API in the middle of lines */
         nvb = w_total_var_bytes(); varsnap = xalloc(nvb + 1);
         unsigned nlines = 10 + rn(30);
         for (unsigned l = 0; l < nlines && !case_failed(); l++) {
